@@ -1,8 +1,11 @@
 """C03 — a file built through the API decodes, per the ELF spec, to what was put in.
 
-Proof (Props/C03.lean): see the theorem list in the evidence (record encoders = specification codec:
-`encodeShdr_eq_spec`, `encodePhdr_eq_spec`, header setters; string-table names; the whole-save
-theorem ladder as far as discharged).  Correspondence: harness/load.cpp (real API: create, setters,
+Proof (Props/C03.lean; details in that file's header): record encoders = specification codec
+(`encodeShdr_spec_bytes`, `encodeShdr_eq_spec`, `encodePhdr_*`, `decode*_encode*`), header setters
+(`hdr_set_get`, `hdr_set_frame`, ...), construction (`create_inv`, `sectionsAdd_name`), the stream
+(`saveSection_writes`), and the composition `save_decodes` / `save_decode_fields` / `save_decode_header`
+(saved bytes decode, per the specification, to the object's header, sections incl. data, segments) under
+C04's disjointness taken as hypothesis `LayoutOk` - all rungs (no / flat / nested segments) at once.  Correspondence: harness/load.cpp (real API: create, setters,
 sections.add, set_data, segments.add, add_section_index, save) vs Driver/Load.lean (Model/Writer.lean)
 — saved bytes compared in full.  Oracle: tools/elfspec.decode of the implementation's bytes vs the
 program's inputs.  Compression interface: not exercised (objects are constructed without one; with
